@@ -1325,3 +1325,45 @@ pub fn replay_under_miri(root: &Path, path: &str, rep: &Replay) -> i32 {
         }
     }
 }
+
+/// `simctl selftest probes`: every rare branch / fault kind the design cares about must
+/// actually be reached by the quick budget. A probe stuck at zero fails the self-test
+/// (exit 2: the workload or fault mix must change), never a check.
+pub fn cmd_selftest_probes(seed: u64) -> i32 {
+    let expect: &[(&str, &[&str])] = &[
+        ("semaphore", &["barge", "cancel_notified", "cancel_waiting_head", "cancel_waiting_middle", "cancel_waiting_tail", "waker_swap", "waker_swap_while_notified", "woken_requeued", "handle_drop_with_pending_future", "disarm", "spurious_poll", "requeue_after_stolen_permits", "unfair_waiting_fastpath_acquire", "poll_after_completion_probe"]),
+        ("mutex", &["barge", "cancel_notified", "cancel_waiting_head", "cancel_waiting_middle", "waker_swap", "waker_swap_while_notified", "woken_requeued", "requeue_after_barging", "unfair_waiting_fastpath_lock", "stale_poll_order"]),
+        ("event", &["set_with_pending_waiters", "reset_before_woken_waiter_polled", "completed_after_set_then_reset", "cancel_notified", "waker_swap"]),
+        ("timer", &["clock_jump_past_many", "clock_jump_saturating", "delay_saturates", "delay_longer_than_u64_ms", "driver_stall", "duplicate_deadline", "cancel_registered_timer", "expired_2_or_more_in_one_check", "heap_with_3_or_more_nodes", "cancel_waiting_middle"]),
+        ("mpmc", &["refill_from_parked_sender", "rendezvous_take_from_parked_sender", "stream_item", "stream_terminated", "terminated_stream_polled_again", "last_receiver_discards_buffer", "notified_receiver_found_nothing", "cancel_parked_sender", "cancel_parked_sender_middle", "close_with_pending_send", "close_with_pending_recv", "last_sender_dropped", "last_receiver_dropped", "cancel_notified", "barge"]),
+        ("oneshot", &["value_received", "late_receiver_gets_none", "receive_started_after_send", "one_of_several_receivers_dropped", "last_receiver_dropped", "close_with_pending_recv", "send_with_pending_receivers"]),
+        ("state_broadcast", &["latest_state_after_close", "request_older_than_latest", "send_with_pending_receivers", "last_sender_dropped", "last_receiver_dropped", "close_with_pending_recv"]),
+    ];
+    let mut missing = 0;
+    for (world, names) in expect {
+        let spec = WorkSpec { layer: "L1".into(), name: world.to_string(), seed, first_run: 0, runs: 100_000, gate: "none".into(), threads: 16, over: Cfg::new(), stop_on_first: false, max_found: 0, idx_dir: None, oplog: None };
+        match spawn_worker(&self_exe(), &spec) {
+            ChildEnd::Ok(o) => {
+                for n in *names {
+                    let c = o.faults.get(*n).copied().unwrap_or(0) + o.probes.get(*n).copied().unwrap_or(0);
+                    if c == 0 {
+                        println!("probe {}::{} was never reached in 100000 runs", world, n);
+                        missing += 1;
+                    }
+                }
+                println!("probes {}: {} expected, all counts: faults {:?} probes {:?}", world, names.len(), o.faults, o.probes);
+            }
+            _ => {
+                eprintln!("harness error: worker failed for world {}", world);
+                return 2;
+            }
+        }
+    }
+    if missing > 0 {
+        eprintln!("harness error: {} probe(s) stuck at zero", missing);
+        2
+    } else {
+        println!("probe self-test passed");
+        0
+    }
+}
